@@ -7,11 +7,13 @@ value is what the value parser registered for TYPE parsed.
    parsers are the environment: any tokens, any value; syntax of tokens / values: C09, C05, C06, C10, C12 ...);
  * check `def-type-table` (enumeration over the real tables): `type_setup.TYPE_SETUPS` is keyed by the type names of the
    syntax, one entry per ValueType, each with the value type of that name;
+ * `EmbryoParser.parse` is under contract: the instruction defines NAME as a SymbolContainer of exactly the value and
+   THE VALUE TYPE that `_parse` returned (the ParseSource, the token parser made from it and the source-location
+   record are the environment; `splitlines()` = some list of strings);
  * bounded stand-in `def-value-classes`: the real `EmbryoParser.parse` on sample definitions of every type -- the
    container has the named type, and the value is of the class that the users of that type demand
-   (`symbol_lookup.lookup_<type>`), the name is NAME.  (EmbryoParser.parse itself -- source bookkeeping through a
-   context manager, `splitlines` -- is not under contract.)"""
-from pyvc.api import (Module, Interface, Method, Iface, Inst, Int, Bool, Str, Opt, ListOf, Any_)
+   (`symbol_lookup.lookup_<type>`), the name is NAME."""
+from pyvc.api import (Module, Interface, Method, Iface, Inst, Int, Bool, Str, Opt, ListOf, FixedList, EnumOf, CtxOf, Any_)
 from contracts.common import implies, iff, forall_range
 from contracts.C09_strings import valid_name
 
@@ -81,7 +83,10 @@ def kinds(trace):
     return [e[0] for e in trace if e[0] in (UNQUOTED, CONSTANT, EOL_CHECK, VALUE_PARSED)]
 
 
+DEF_PARSED = 'def-parsed'
+
 M.contract(P_DEF + ':_parse', params=dict(fs_location_info=Any_, parser=Iface(TokenParserI)),
+           returns=FixedList(Str, EnumOf(ValueType), Iface(ValueSdvI), as_tuple=True), event=DEF_PARSED,
            ensures={
                'def TYPE NAME = VALUE: type, name, "=", value, end of line -- in this order, each once':
                    lambda trace: kinds(trace) == [UNQUOTED, UNQUOTED, CONSTANT, VALUE_PARSED, EOL_CHECK]
@@ -105,6 +110,70 @@ M.contract(P_DEF + ':_parse', params=dict(fs_location_info=Any_, parser=Iface(To
                or (len(unquoted_tokens(trace)) == 1 and kinds(trace) in ([UNQUOTED], [UNQUOTED, UNQUOTED]))
                or (len(unquoted_tokens(trace)) == 2 and unquoted_tokens(trace)[0] in type_setup.TYPE_SETUPS
                    and (valid_name(unquoted_tokens(trace)[1]) or kinds(trace) == [UNQUOTED, UNQUOTED]))}},
+           raises_only=(SingleInstructionInvalidArgumentException,))
+
+
+# ------------------------------------------------------------------------------ EmbryoParser.parse: the definition built
+# The source bookkeeping (which lines the definition was written on) is outside the property: the ParseSource, the
+# token parser made from it and the source-location record are the environment; `splitlines()` is some list of strings.
+
+from exactly_lib.section_document.parse_source import ParseSource
+from exactly_lib.section_document.source_location import FileSystemLocationInfo
+from exactly_lib.symbol.sdv_structure import SymbolContainer, SymbolDefinition
+
+M.weak_splitlines = True
+TOKEN_PARSER_OF_SOURCE = 'token-parser-of-source'
+SOURCE_INFO = 'source-location-info'
+
+
+class ParseSourceI(Interface):
+    target_class = ParseSource
+    attrs = {'current_line_number': Int, 'current_line_text': Str, 'column_index': Int}
+    props = {'remaining_source': lambda interp, self: Str.make(interp, 'remaining_source')}   # changes while parsing
+
+
+class SourceFileI(Interface):
+    methods = {'source_location_info_for': Method(returns=Any_, event=SOURCE_INFO)}
+
+
+class FsLocationI(Interface):
+    target_class = FileSystemLocationInfo
+    attrs = {'current_source_file': Iface(SourceFileI)}
+
+
+M.contract('exactly_lib.section_document.element_parsers.token_stream_parser:from_parse_source', trusted=True,
+           event=TOKEN_PARSER_OF_SOURCE,
+           params=dict(source=Any_, consume_last_line_if_is_at_eol_after_parse=Any_,
+                       consume_last_line_if_is_at_eof_after_parse=Any_),
+           returns=CtxOf(Iface(TokenParserI)))
+M.trust('token_stream_parser.from_parse_source(source, ..): context manager giving a TokenParser over the remaining '
+        'source of the ParseSource, which is advanced afterwards (C07/C09; the source bookkeeping is outside C08)')
+
+
+def def_parsed(trace):
+    """what the one call of _parse returned: (name, value type, value)"""
+    rs = [e for e in trace if e[0] == DEF_PARSED + ':returned']
+    if len(rs) != 1:
+        raise ValueError('not exactly one _parse')
+    return rs[0]
+
+
+M.contract(P_DEF + ':EmbryoParser.parse',
+           params=dict(self=Any_, fs_location_info=Iface(FsLocationI), source=Iface(ParseSourceI)),
+           ensures={
+               'the definition is parsed once, from a token parser made of this source': lambda fs_location_info, source, trace:
+               [e[1]['source'] for e in trace if e[0] == TOKEN_PARSER_OF_SOURCE] == [source]
+               and def_parsed(trace)[1]['fs_location_info'] is fs_location_info,
+               'the instruction defines NAME as a container of the parsed value with THE TYPE NAMED':
+                   lambda result, trace:
+                   type(result) is def_parser.TheInstructionEmbryo and type(result.symbol) is SymbolDefinition
+                   and result.symbol.name == def_parsed(trace)[2][0]
+                   and type(result.symbol.symbol_container) is SymbolContainer
+                   and result.symbol.symbol_container.value_type is def_parsed(trace)[2][1]
+                   and result.symbol.symbol_container.sdv is def_parsed(trace)[2][2],
+           },
+           raises={SingleInstructionInvalidArgumentException: {
+               'ensures': lambda trace: len([e for e in trace if e[0] == DEF_PARSED + ':returned']) == 0}},
            raises_only=(SingleInstructionInvalidArgumentException,))
 
 
